@@ -760,11 +760,12 @@ fn supervise(spec: &Spec, tier: Tier, seed: u64) -> i32 {
     let _ = std::fs::create_dir_all(&rdir);
     let mut lines = Vec::new();
     for v in &fresh {
-        let name = format!("{}-{:016x}.json", spec.id, hash_str(&v.key));
+        let config = std::env::var("NBMC_CONFIG").unwrap_or_else(|_| "rel".to_string());
+        let name = format!("{}-{:016x}.json", spec.id, hash_str(&format!("{}{}", config, v.key)));
         let p = rdir.join(&name);
-        let j = json!({"property": spec.id, "tier": tier.name(), "seed": seed, "violation": v.to_json()});
+        let j = json!({"property": spec.id, "tier": tier.name(), "seed": seed, "config": config, "violation": v.to_json()});
         let _ = std::fs::write(&p, serde_json::to_string_pretty(&j).unwrap());
-        lines.push(format!("VIOLATION property={} replay=replays/{}  # {} :: expected {} got {}", spec.id, name, v.what, trunc(&v.expected), trunc(&v.got)));
+        lines.push(format!("VIOLATION property={} replay=replays/{}  # [{}] {} :: expected {} got {}", spec.id, name, config, v.what, trunc(&v.expected), trunc(&v.got)));
     }
     for (k, v) in &known_hits {
         println!("KNOWN-FINDING: property={} {} ({})", spec.id, v.key, if k.desc.is_empty() { &v.what } else { &k.desc });
@@ -824,9 +825,19 @@ fn supervise(spec: &Spec, tier: Tier, seed: u64) -> i32 {
         "wall_s": wall,
         "violations": fresh.len(),
     });
-    let edir = root.join("evidence");
-    let _ = std::fs::create_dir_all(&edir);
-    std::fs::write(edir.join(format!("{}.json", spec.id)), serde_json::to_string_pretty(&ev).unwrap()).expect("write evidence");
+    // multi-configuration checks write one part per configuration; a merge step builds the final file
+    match std::env::var("NBMC_PART") {
+        Ok(part) => {
+            let edir = root.join("target").join("evidence-parts");
+            let _ = std::fs::create_dir_all(&edir);
+            std::fs::write(edir.join(format!("{}.{}.json", spec.id, part)), serde_json::to_string_pretty(&ev).unwrap()).expect("write evidence part");
+        }
+        Err(_) => {
+            let edir = root.join("evidence");
+            let _ = std::fs::create_dir_all(&edir);
+            std::fs::write(edir.join(format!("{}.json", spec.id)), serde_json::to_string_pretty(&ev).unwrap()).expect("write evidence");
+        }
+    }
     println!(
         "{} {}: states={} transitions={} compared={} nontrivial={} distinct_outcomes={} violations={} known={} exhaustive={} wall={:.1}s",
         spec.id,
